@@ -3,6 +3,7 @@ package checks
 import (
 	"fmt"
 	"io"
+	"net"
 	"sync"
 	"time"
 
@@ -187,5 +188,104 @@ func c19SerialLine(c *vlib.Ctx) (sig, what string) {
 		}
 		c.Count("serial_line_long_late_reply", 1)
 	}
+	return "", ""
+}
+
+// c19ServerReplaced: several connections are open to a TCP server; the server is closed and another one, with
+// another register file, takes its place on the same port (what node/modbus.go does when a bus is reconfigured).
+// Whatever an old connection returns afterwards must be what the running server holds - an error is fine, an
+// answer from the server that was closed is not.
+func c19ServerReplaced(c *vlib.Ctx, round int) (sig, what string) {
+	r := vlib.NewR(c.Seed, "c19replaced", round)
+	port, release := vlib.FreePort()
+	defer release()
+	mk := func(base int) *modbus.Regs {
+		regs := &modbus.Regs{}
+		regs.AddReg(0, 8)
+		for a := 0; a < 8; a++ {
+			_ = regs.WriteReg(a, uint16(base+a))
+		}
+		return regs
+	}
+	regsA, regsB := mk(1000), mk(2000)
+	tsA, err := modbus.NewTCPServer(1, 8, fmt.Sprint(port), regsA, 0)
+	if err != nil {
+		c.Inconclusive("server replaced: TCP server does not start: " + err.Error())
+		return "", ""
+	}
+	go tsA.Listen(func(error) {}, func() {}, func() {})
+	nConn := 2 + r.Intn(3)
+	var cls []*modbus.Client
+	defer func() {
+		for _, cl := range cls {
+			_ = cl.Close()
+		}
+	}()
+	for k := 0; k < nConn; k++ {
+		conn, err := net.DialTimeout("tcp", fmt.Sprintf("127.0.0.1:%d", port), 5*time.Second)
+		if err != nil {
+			c.Inconclusive("server replaced: connect: " + err.Error())
+			go func() { _ = tsA.Close() }()
+			return "", ""
+		}
+		cl := modbus.NewClient(modbus.NewTCP(conn, time.Second, modbus.TransportClient), 0)
+		cls = append(cls, cl)
+		a := r.Intn(8)
+		got, err := cl.ReadHoldingRegs(1, uint16(a), 1)
+		c.Eval(1)
+		if err != nil || len(got) != 1 || got[0] != uint16(1000+a) {
+			go func() { _ = tsA.Close() }()
+			return "modbus-e2e:wrong-values:several-connections", fmt.Sprintf("connection %d of %d to one TCP server: read of register %d answered %v %v, the server holds %d", k+1, nConn, a, got, err, 1000+a)
+		}
+	}
+	closed := make(chan struct{})
+	go func() { _ = tsA.Close(); close(closed) }()
+	select {
+	case <-closed:
+	case <-time.After(10 * time.Second):
+		c.Inconclusive("server replaced: TCPServer.Close did not return within 10 s")
+		return "", ""
+	}
+	var tsB *modbus.TCPServer
+	for try := 0; try < 50; try++ {
+		if tsB, err = modbus.NewTCPServer(1, 8, fmt.Sprint(port), regsB, 0); err == nil {
+			break
+		}
+		time.Sleep(100 * time.Millisecond)
+	}
+	if err != nil {
+		c.Inconclusive("server replaced: the second server does not start on the port: " + err.Error())
+		return "", ""
+	}
+	go tsB.Listen(func(error) {}, func() {}, func() {})
+	defer func() { go func() { _ = tsB.Close() }() }()
+	for k, cl := range cls {
+		a := r.Intn(8)
+		got, err := cl.ReadHoldingRegs(1, uint16(a), 1)
+		c.Eval(1)
+		if err == nil && (len(got) != 1 || got[0] != uint16(2000+a)) {
+			return "modbus-e2e:answer-from-a-server-that-was-closed", fmt.Sprintf("connection %d of %d, opened before the TCP server was closed and replaced: read of register %d returned %v without error; the running server holds %d (the closed one held %d)", k+1, nConn, a, got, 2000+a, 1000+a)
+		}
+		v := uint16(3000 + k)
+		if err := cl.WriteSingleReg(1, uint16(a), v); err == nil {
+			if sv, _ := regsB.ReadReg(a); sv != v {
+				return "modbus-e2e:acknowledged-write-not-applied:server-replaced", fmt.Sprintf("connection %d of %d, opened before the TCP server was replaced: write of %d to register %d was acknowledged, the running server holds %d", k+1, nConn, v, a, sv)
+			}
+			_ = regsB.WriteReg(a, uint16(2000+a))
+		}
+	}
+	conn, err := net.DialTimeout("tcp", fmt.Sprintf("127.0.0.1:%d", port), 5*time.Second)
+	if err != nil {
+		return "modbus-e2e:new-server-not-reachable", "after the replacement a new connection is refused: " + err.Error()
+	}
+	cl := modbus.NewClient(modbus.NewTCP(conn, time.Second, modbus.TransportClient), 0)
+	defer cl.Close()
+	a := r.Intn(8)
+	got, err := cl.ReadHoldingRegs(1, uint16(a), 1)
+	c.Eval(1)
+	if err != nil || len(got) != 1 || got[0] != uint16(2000+a) {
+		return "modbus-e2e:wrong-values:several-connections", fmt.Sprintf("new connection after the replacement: read of register %d answered %v %v, the server holds %d", a, got, err, 2000+a)
+	}
+	c.Count("tcp_servers_replaced_under_open_connections", 1)
 	return "", ""
 }
